@@ -254,3 +254,35 @@ func Skeleton(path, recv, name string, keep *regexp.Regexp) (string, error) {
 	}
 	return "", fmt.Errorf("function %s.%s not found in %s", recv, name, path)
 }
+
+// Text returns the source text of the body of function `name` (method receiver type `recv`, "" for
+// functions), comments dropped and white space normalised: a T-facts tie for code whose exact statement
+// order matters and that no executable comparison reaches.
+func Text(path, recv, name string) (string, error) {
+	fset := token.NewFileSet()
+	f, err := parser.ParseFile(fset, path, nil, 0)
+	if err != nil {
+		return "", err
+	}
+	for _, d := range f.Decls {
+		fd, ok := d.(*ast.FuncDecl)
+		if !ok || fd.Name.Name != name || fd.Body == nil {
+			continue
+		}
+		r := ""
+		if fd.Recv != nil && len(fd.Recv.List) > 0 {
+			t := fd.Recv.List[0].Type
+			if s, ok := t.(*ast.StarExpr); ok {
+				t = s.X
+			}
+			if id, ok := t.(*ast.Ident); ok {
+				r = id.Name
+			}
+		}
+		if r != recv {
+			continue
+		}
+		return render(fset, fd.Body), nil
+	}
+	return "", fmt.Errorf("function %s.%s not found in %s", recv, name, path)
+}
